@@ -15,7 +15,7 @@ ID = 'C04'
 LEVEL = 'exploration'
 WORKERS = {'quick': 10, 'thorough': 14}
 BUDGET_S = {'quick': 70, 'thorough': 480}
-REQUIRED_COUNTERS = ['entries_compared', 'nan_entries_expected', 'superset_twins', 'kernel0_batches', 'kernel1_batches', 'auto_class_sets', 'empty_class_cases']
+REQUIRED_COUNTERS = ['entries_compared', 'nan_entries_expected', 'superset_twins', 'kernel0_batches', 'kernel1_batches', 'auto_class_sets', 'empty_class_cases', 'cases_with_undeclared_values', 'repeated_computes']
 RULE = ('a case = (anova | nicv | snr, precision, regime E|R, class mode: explicit list (gaps, unused values, any order) | automatic '
         '(first-batch maximum below 9 / 64 / 256), structure: balanced | unbalanced | single class | one trace per class | constant '
         'classes | all equal, 1-4 words, forced kernel per batch, 1-3 batches, sub-seed); non-trivial = at least one defined entry compared '
@@ -90,8 +90,23 @@ def run_case(case):
         data = rng.choice(used, (n, W))
     if mode == 'auto':
         data[0, 0] = used.max()
-    if declared is not None and struct not in ('single', 'one_per_class') and rng.random() < 0.0:
-        pass
+    # traces whose value is not a class value (undeclared, or beyond the class set frozen by the first batch) take no part
+    foreign_rows = 0
+    first = None
+    if struct not in ('one_per_class',) and n >= 4 and rng.random() < 0.5:
+        if declared is not None:
+            pool = [v for v in (max(declared) + 1, max(declared) + 17, min(declared) - 1, 0, 7, 255) if v not in declared and 0 <= v < 2 ** 17]
+        else:
+            r_auto = min(x for x in (9, 64, 256) if int(used.max()) < x)
+            pool = [v for v in (r_auto, r_auto + 3, 255, 300) if v >= r_auto]
+        if pool:
+            first = int(rng.integers(1, n - 1)) if declared is None else 0      # automatic class sets: the first batch only holds class values
+            m = rng.random((n, W)) < 0.15
+            m[:first + 1 if declared is None else 0] = False
+            if declared is None:
+                m[:max(first, 1)] = False
+            data = np.where(m, rng.choice(pool, (n, W)), data)
+            foreign_rows = int(m.any(1).sum())
     tdtype = gen.TRACE_DTYPES[int(rng.integers(len(gen.TRACE_DTYPES)))]
     if regime == 'E':
         X = max(1, gen.exact_bound(n, prec, mode='full'))
@@ -102,23 +117,34 @@ def run_case(case):
         if struct == 'const_classes':
             # every class constant on word 0: within-class variance exactly zero for that word
             lv = {int(v): int(rng.integers(-X, X + 1)) if np.dtype(tdtype).kind != 'u' else int(rng.integers(0, X + 1)) for v in used}
-            traces = np.array([[lv[int(data[i, 0])]] * T for i in range(n)]).astype(tdtype)
+            traces = np.array([[lv.get(int(data[i, 0]), 1)] * T for i in range(n)]).astype(tdtype)
         elif struct == 'all_equal':
             traces[:] = traces[0]
     else:
         if tdtype not in gen.TRACE_DTYPES_FLOAT:
             tdtype = gen.TRACE_DTYPES_FLOAT[int(rng.integers(2))]
         cm = {int(v): rng.normal(0, 2, T) for v in used}
-        traces = (float(rng.choice([0.0, 30.0, 1000.0])) + np.array([cm[int(data[i, 0])] for i in range(n)]) + rng.normal(0, 1, (n, T))).astype(tdtype)
+        traces = (float(rng.choice([0.0, 30.0, 1000.0])) + np.array([cm.get(int(data[i, 0]), np.zeros(T)) for i in range(n)]) + rng.normal(0, 1, (n, T))).astype(tdtype)
+    if foreign_rows and int(data.max()) > np.iinfo(ddt).max:
+        ddt = 'int32' if int(data.max()) > 65535 else 'uint16'
     data = data.astype(ddt)
     traces = gen.layout(rng, traces)
-    classes = declared if declared is not None else sorted(int(v) for v in np.unique(data))
+    classes = declared if declared is not None else sorted(int(v) for v in np.unique(data) if v <= int(used.max()))
+    if foreign_rows:
+        t.count('cases_with_undeclared_values')
     if declared is not None and len(used) < len(declared):
         t.count('empty_class_cases')
     if mode == 'auto':
         t.count('auto_class_sets')
     spec = dict(name=name, precision=prec, partitions=declared)
     sizes = [n] if (mode == 'auto' and n < 3) or rng.random() < 0.4 else gen.split_sizes(rng, n, kmax=3)
+    if foreign_rows and declared is None:
+        # the automatic class set is frozen by the first batch: it must end before the first foreign value
+        fr = int(np.argmax((data > int(used.max())).any(1)))
+        cut = int(rng.integers(1, fr + 1))
+        rest = n - cut
+        sizes = [cut] + ([rest] if rest < 2 or rng.random() < 0.5 else [rest // 2, rest - rest // 2])
+    between = bool(rng.random() < 0.5)
     kseq = [int(v) for v in rng.integers(0, 2, len(sizes))]
 
     def execute(sp):
@@ -128,13 +154,20 @@ def run_case(case):
         for s in sizes:
             obj.update(traces[pos:pos + s], data[pos:pos + s])
             pos += s
+            if between:
+                with np.errstate(all='ignore'):
+                    obj.compute()               # asking for the result between batches must not disturb later ones
         with np.errstate(all='ignore'):
             return obj, np.asarray(obj.compute())
 
     obj, got = execute(spec)
+    with np.errstate(all='ignore'):
+        again = np.asarray(obj.compute())
+    t.count('repeated_computes')
+    t.check(tol.same(got, again), 'second_compute_differs', lambda: dict(case=case, diff=tol.first_diff(got, again)))
     for c in CONTROL.choices_of(obj):
         t.count(f'kernel{c}_batches')
-    info = dict(case=case, n=n, T=T, W=W, tdtype=tdtype, ddt=ddt, declared=declared, used=[int(v) for v in used], sizes=sizes, kernels=CONTROL.choices_of(obj))
+    info = dict(case=case, n=n, T=T, W=W, tdtype=tdtype, ddt=ddt, undeclared_rows=foreign_rows, computes_between_batches=between, declared=declared, used=[int(v) for v in used], sizes=sizes, kernels=CONTROL.choices_of(obj))
     val, scale, undef = oracles.partitioned(name, np.asarray(traces), data, classes)
     t.check(got.shape == (W, T), 'result_shape', lambda: dict(info, got_shape=got.shape))
     t.check(not np.isinf(got).any(), 'infinite_result', lambda: dict(info, index=[int(v) for v in np.argwhere(np.isinf(got))[0]]))
@@ -165,7 +198,8 @@ def run_case(case):
                                                            expected=float(val[tuple(np.argwhere(bad)[0])]), tol=float(tl[tuple(np.argwhere(bad)[0])]), n_bad=int(bad.sum())))
     # metamorphic: extra declared-but-unused class values do not influence the result
     if declared is not None and rng.random() < 0.6:
-        extra = [int(v) for v in (max(declared) + 1 + rng.permutation(6)[:int(rng.integers(1, 4))])]
+        present = set(int(v) for v in np.unique(data))
+        extra = [int(v) for v in (max(declared) + 30 + rng.permutation(6)[:int(rng.integers(1, 4))]) if int(v) not in present]
         sup = list(declared) + extra
         order = rng.permutation(len(sup))
         sup = [sup[i] for i in order]
